@@ -1236,6 +1236,7 @@ func (x *Exec) publishAll(p *Path) {
 		parts := strings.SplitN(u, "|", 2)
 		kinds = fmt.Sprintf("(store %s %s %s)", kinds, parts[1], parts[0])
 	}
+	p.pendingExt = "ghost"
 	x.upd(p, "Kind", kinds)
 	p.unpub = nil
 }
@@ -1280,6 +1281,10 @@ func (x *Exec) exitNormal(p *Path, results []SV, in ssa.Instruction) {
 		s, err := env.evalBool(en.E)
 		if err != nil {
 			x.errorf("%s: ensures %s: %v", ct.Func, en.Label, err)
+			continue
+		}
+		if ct.Flags["skip="+en.Label] {
+			x.assumptions[ct.Func+"/ensures/"+en.Label+" is NOT discharged (assumed; see DESIGN.md)"] = true
 			continue
 		}
 		x.oblig(p, "ensures/"+en.Label, s, en.Props, x.pos(in))
